@@ -146,8 +146,7 @@ impl Fs {
     /// Resolves `path` from the directory with physical path `cwd`; returns the physical path of
     /// the file found. `sim` = resolve the way the simulated OS does instead of the way POSIX says:
     /// `.` and `..` are taken without checking that the current directory is searchable (the
-    /// known finding vfs-dot-in-unsearchable-dir), a symbolic link is followed only as the very
-    /// last component (at most 7 times) — used only to attribute a failing case to that finding.
+    /// known finding vfs-dot-in-unsearchable-dir), at most 7 symbolic links are followed — used only to attribute a failing case to that finding.
     pub fn walk(&self, cwd: &[String], path: &str, follow_final: bool, sim: bool, fl: &mut Flags) -> Result<Vec<String>, RErr> {
         let quirk_dot = sim;
         fl.followed_final = false;
@@ -187,12 +186,14 @@ impl Fs {
                 Node::Link(target) => {
                     let rest = !todo.is_empty() || trailing;
                     if sim {
-                        if !rest && follow_final {
+                        if rest || follow_final {
                             follows += 1;
                             if follows > 7 {
                                 return Err(RErr::Loop);
                             }
-                            fl.followed_final = true;
+                            if !rest {
+                                fl.followed_final = true;
+                            }
                             if target.starts_with('/') {
                                 cur.clear();
                             }
@@ -207,9 +208,7 @@ impl Fs {
                         if follows > 40 {
                             return Err(RErr::Loop);
                         }
-                        if rest {
-                            fl.sim_differs = Some("simulated OS does not follow a symbolic link in the middle of a path");
-                        } else {
+                        if !rest {
                             fl.followed_final = true;
                         }
                         if target.starts_with('/') {
@@ -473,7 +472,7 @@ impl Enum<'_> {
     /// Names in the directory `p` (without `.` and `..`), if it can be opened for reading.
     fn opendir(&mut self, p: &str) -> Result<Vec<(String, bool)>, RErr> {
         let sim = self.q.dot_after_nondir;
-        let phys = match self.fs.walk(self.cwd, p, !sim, sim, &mut self.fl) {
+        let phys = match self.fs.walk(self.cwd, p, true, sim, &mut self.fl) {
             Ok(p) => p,
             Err(e) => {
                 if e == RErr::Outside && !sim {
@@ -482,9 +481,6 @@ impl Enum<'_> {
                 return Err(e);
             }
         };
-        if self.fl.followed_final && !sim {
-            self.fl.sim_differs = Some("simulated opendir does not follow a symbolic link");
-        }
         if phys.is_empty() {
             if !sim {
                 self.fl.outside = true;
